@@ -8,7 +8,7 @@ Print Assumptions C18_decider_sound.
 
 (* main theorem: for every well-formed dialect entry, every setting and every step list (any length, any bodies,
    any autocommit sections) the modelled offline script satisfies the whole property *)
-Theorem C18_main : forall d c r, table_wf d = true -> C18_holds (d, c, r) (offline_chunks d c r).
+Theorem C18_main : forall d c r, table_wf d = true -> C18_holds (d, c, r) (offline_out d c r).
 Proof. exact C18_main_thm. Qed.
 Print Assumptions C18_main.
 
@@ -63,7 +63,7 @@ Proof. vm_compute. reflexivity. Qed.
 Print Assumptions C18_tables_wf.
 
 (* hence the property holds of the model for every dialect alembic ships *)
-Theorem C18_table : forall d c r, In (Some d) dialects -> C18_holds (d, c, r) (offline_chunks d c r).
+Theorem C18_table : forall d c r, In (Some d) dialects -> C18_holds (d, c, r) (offline_out d c r).
 Proof. exact (table_thm dialects C18_tables_wf). Qed.
 Print Assumptions C18_table.
 
@@ -81,8 +81,17 @@ Theorem C18_override_routes : forall d pm b x r,
 Proof. exact override_routes_thm. Qed.
 Print Assumptions C18_override_routes.
 
+(* an offline run cut short by an exception (raised anywhere in the last step of r: between statements, inside an
+   autocommit section, in a callback after the version statements): the script never has a nested BEGIN or an unmatched
+   COMMIT — every BEGIN emitted before the failure is closed or is the last, still open, block — autocommit statements lie
+   outside every block, all others inside one, and what was written is exactly what ran *)
+Theorem C18_cut_short : forall d c r, table_wf d = true ->
+  C18_cut_hold (effective_tddl d c) r (tokenize d (offline_chunks_cut d c r)).
+Proof. exact cut_thm. Qed.
+Print Assumptions C18_cut_short.
+
 (* ---- non-vacuity: a transactional dialect of the table, two steps, the first with an autocommit section ---- *)
-Definition ex_run : run := mkRun true [mkOstep [IStmt 0%N; IAuto [1%N]; IStmt 2%N] 1 false; mkOstep [IStmt 0%N] 1 false].
+Definition ex_run : run := mkRun true [mkOstep [IStmt 0%N; IAuto [1%N]; IStmt 2%N] 1 false; mkOstep [IStmt 0%N] 1 false] false.
 Example C18_grammar_nonvacuous :
   In (Some (dget 5)) dialects /\ table_wf (dget 5) = true /\ effective_tddl (dget 5) (mkOcfg None true true None) = true /\
   count_begin (offline_events (dget 5) (mkOcfg None true true None) ex_run) = 3%nat /\
@@ -90,10 +99,16 @@ Example C18_grammar_nonvacuous :
 Proof. vm_compute. repeat split; auto 10. Qed.
 Example C18_single_block_nonvacuous :
   table_wf (dget 1) = true /\ effective_tddl (dget 1) (mkOcfg None false true None) = true /\
-  forallb no_auto (r_steps (mkRun true [mkOstep [IStmt 0%N] 1 false; mkOstep [IStmt 0%N] 2 true])) = true /\
-  count_begin (offline_events (dget 1) (mkOcfg None false true None) (mkRun true [mkOstep [IStmt 0%N] 1 false; mkOstep [IStmt 0%N] 2 true])) = 1%nat.
+  forallb no_auto (r_steps (mkRun true [mkOstep [IStmt 0%N] 1 false; mkOstep [IStmt 0%N] 2 true] false)) = true /\
+  count_begin (offline_events (dget 1) (mkOcfg None false true None) (mkRun true [mkOstep [IStmt 0%N] 1 false; mkOstep [IStmt 0%N] 2 true] false)) = 1%nat.
 Proof. vm_compute. repeat split; auto. Qed.
 Example C18_no_markers_nonvacuous :
   table_wf (dget 4) = true /\ effective_tddl (dget 4) (mkOcfg None true true None) = false /\
   length (offline_events (dget 4) (mkOcfg None true true None) ex_run) = 16%nat.
 Proof. vm_compute. repeat split; auto. Qed.
+Example C18_cut_short_nonvacuous :
+  let r := mkRun true [mkOstep [IStmt 0%N] 1 false; mkOstep [IStmt 0%N; IAuto [1%N]] 0 false] true in
+  table_wf (dget 5) = true /\ effective_tddl (dget 5) (mkOcfg None true false None) = true /\
+  run_depth false (strip_sep (tokenize (dget 5) (offline_chunks_cut (dget 5) (mkOcfg None true false None) r))) = Some true /\
+  count_begin (tokenize (dget 5) (offline_chunks_cut (dget 5) (mkOcfg None true false None) r)) = 3%nat.
+Proof. vm_compute. repeat split. Qed.
